@@ -25,7 +25,7 @@ def rule_space(E, R):
     h = E.hir("lex::skip_space")
     if h:
         t = tail(h["body"])
-        ok = t.get("k") == "MethodCall" and t["m"] == "trim_start_matches" and local_name(t["recv"]) == "input" and \
+        ok = t.get("k") == "MethodCall" and t["m"] == "trim_start_matches" and is_param(t["recv"], h, 0) and \
             (def_path(t["args"][0]) or "").endswith("SPACE_CHARS")
         R.check(ok, rule, "lex::skip_space", "skip_space trims exactly that set from the front", where=h["span"])
     else:
@@ -275,24 +275,26 @@ def rule_hashwrite(F, R):
     hw = X.hir("<HasherWrite<H> as std::io::Write>::write_all")
     if hw:
         cs = [c for c in exprs(hw["body"], "MethodCall") if c["m"] == "write" and "Hasher" in norm(c.get("callee", ""))]
-        ok = len(cs) == 1 and local_name(cs[0]["args"][0]) == "buf" and strip(cs[0]["recv"]).get("name") == "0"
+        ok = len(cs) == 1 and is_param(cs[0]["args"][0], hw, 1) and strip(cs[0]["recv"]).get("name") == "0"
         R.check(ok, rule, norm(hw["path"]), "every byte written is fed to the hasher", where=hw["span"])
     else:
         R.cannot(rule, "HasherWrite::write_all", "anchor not found")
     h2 = X.hir("<HasherWrite<H> as std::io::Write>::write")
     if h2:
-        wa = [c for c in exprs(h2["body"], "MethodCall") if c["m"] == "write_all" and local_name(c["args"][0]) == "buf"]
+        wa = [c for c in exprs(h2["body"], "MethodCall") if c["m"] == "write_all" and is_param(c["args"][0], h2, 1)]
         t = tail(h2["body"])
         ok = len(wa) == 1 and norm(t.get("callee", "")) == "core::result::Result::Ok" and strip(t["args"][0]).get("m") == "len" and \
-            local_name(strip(t["args"][0])["recv"]) == "buf"
+            is_param(strip(t["args"][0])["recv"], h2, 1)
         R.check(ok, rule, norm(h2["path"]), "write() hashes the whole buffer and reports its full length", where=h2["span"])
     hf = X.hir("wirefilter_get_filter_hash")
     if hf:
         tw = [c for c in exprs(hf["body"], "Call") if norm(c.get("callee", "")) == "serde_json::ser::to_writer"]
         ok = len(tw) == 1 and any(norm(c.get("callee", "")) == "HasherWrite" for c in exprs(tw[0]["args"][0], "Call")) and \
-            any(local_name(p) == "filter_ast" for p in exprs(tw[0]["args"][1], "Path"))
+            any(is_param(p, hf, 0) for p in exprs(tw[0]["args"][1], "Path"))
         R.check(ok, rule, "wirefilter_get_filter_hash", "the hash is computed over the filter's JSON serialization", where=hf["span"])
-        fin = [c for c in exprs(hf["body"], "MethodCall") if c["m"] == "finish" and local_name(c["recv"]) == "hasher"]
+        wrapped = {local_name(p) for c in exprs(tw[0]["args"][0], "Call") if norm(c.get("callee", "")) == "HasherWrite" for p in exprs(c, "Path")} if tw else set()
+        wrapped.discard(None)
+        fin = [c for c in exprs(hf["body"], "MethodCall") if c["m"] == "finish" and local_name(c["recv"]) in wrapped]
         R.check(len(fin) == 1, rule, "wirefilter_get_filter_hash", "returns the hasher's digest", where=hf["span"])
 
 
